@@ -167,6 +167,8 @@ Definition stride_eff (stride : option (list Z)) : option (list Z) :=
   end.
 
 Definition ones_like (l : list Z) : list Z := map (fun _ => 1) l.
+(* the I/O buffer of a read request holds nothing defined when the request is posted *)
+Definition undef_bytes (n : Z) : list byte := map (fun _ => UNDEF) (zrange 0 n).
 
 (* ncmpio_igetput_varm.  data = content of xbuf (puts); swapbuf = need_swap_back_buf (Abuf.put_swaps_user_buf)
    returns (state, request id, rc) *)
@@ -210,7 +212,8 @@ Definition post_varm (st : nbstate) (k : nkind) (g : geom) (start count : list Z
         let id := next_id (Zlen (get_lead st)) (maxGetID st) 1 in
         let mk_lead := fun off => mklead id g se off new_nreqs max_rec false false (-1) xaddr nelems None tag orig in
         let '(gl, gr) := enqueue false 0 (get_lead st) (get_reqs st) mk_lead mk_reqs new_nreqs in
-        (mkst (put_lead st) gl (put_reqs st) gr (maxPutID st) id ab (st_numrecs st) (st_mem st), id, NC_NOERR)
+        (mkst (put_lead st) gl (put_reqs st) gr (maxPutID st) id ab (st_numrecs st)
+              (dk_write (st_mem st) xaddr (undef_bytes nbytes)), id, NC_NOERR)
   end.
 
 (* igetput_varn.  parts = (starts[i], counts[i]) ; counts[i] = None <-> NULL (all ones) *)
@@ -264,7 +267,8 @@ Definition post_varn (st : nbstate) (k : nkind) (g : geom) (parts : list (list Z
         let id := next_id (Zlen (get_lead st)) (maxGetID st) 1 in
         let mk_lead := fun off => mklead id g None off new_nreqs max_rec false false (-1) xaddr nelems None tag orig in
         let '(gl, gr) := enqueue true (g_begin g) (get_lead st) (get_reqs st) mk_lead mk_reqs new_nreqs in
-        (mkst (put_lead st) gl (put_reqs st) gr (maxPutID st) id ab (st_numrecs st) (st_mem st), id, NC_NOERR)
+        (mkst (put_lead st) gl (put_reqs st) gr (maxPutID st) id ab (st_numrecs st)
+              (dk_write (st_mem st) xaddr (undef_bytes nbytes)), id, NC_NOERR)
   end.
 
 (* ====================================================================== *)
